@@ -18,7 +18,7 @@ THEOREMS = [
     'SF.C12.series_sort_values_perm', 'SF.C12.index_sort_perm',
     'SF.C12.sort_sorted', 'SF.C12.sort_sorted_lex', 'SF.C12.sort_stable', 'SF.C12.sort_unique',
     'SF.C12.sort_desc_reverse', 'SF.C12.sort_desc_reverse_frame', 'SF.C12.sort_desc_ties',
-    'SF.C12.sort_carries', 'SF.C12.key_length_checked',
+    'SF.C12.sort_carries', 'SF.C12.key_length_checked', 'SF.C12.one_column_key',
 ]
 PARTIAL = []
 CORR_ONLY = [
@@ -223,7 +223,7 @@ def series_case(rng, n, big=False):
             c['keyfn'] = rand_keyfn_index(rng, n, index)
         else:
             kf = rand_keyfn_values(rng, n, 1, kind in ('int', 'float'))
-            if kf['f'] in ('const2', 'constframe', 'col1', 'badlen'):
+            if kf['f'] in ('const2', 'constframe', 'badlen'):
                 kf = {'f': 'const', 'dt': 'int64', 'v': rand_key_tokens(rng, n, 'int')}
             c['keyfn'] = kf
     return c
@@ -453,11 +453,12 @@ def expected_order(c):
     return n, cols, ('ok', order)
 
 
-def cfs_wire(cols):
+def cfs_wire(cols, one_column_2d=False):
+    """`one_column_2d`: the key function returned a 2-D array of one column (sent as a one-column `multi`)."""
     toks = [[mtok(x) for x in col] for col in cols]
     if not all(mtok_orderable(t) for col in toks for t in col):
         return None
-    if len(toks) == 1:
+    if len(toks) == 1 and not one_column_2d:
         return '(single ' + ' '.join(toks[0]) + ')'
     return '(multi ' + ' '.join(wire_list(col) for col in toks) + ')'
 
@@ -469,15 +470,13 @@ def model_lines(c):
             return [f'order.argsort {wire_list(cols[0])}']
         return [f'order.lexsort ({" ".join(wire_list(col) for col in cols)}) {len(cols[0])}']
     kf = c.get('keyfn')
-    if kf and kf['f'] == 'col1':
-        return []  # (n,1) arrays: Frame.sort_values squeezes them, sort_index_for_order does not (finding); no model line
     n, cols = base_key_columns(c)
     if kf:
         if kf['f'] == 'badlen':
             cols = [col[:-1] for col in cols[:1]]
         else:
             cols = keyfn_columns(kf, cols)
-    w = cfs_wire(cols)
+    w = cfs_wire(cols, one_column_2d=bool(kf and kf['f'] == 'col1'))
     if w is None:
         return []
     lines = [f'order.sifo {n} {w} {int(c["asc"])}']
@@ -599,22 +598,8 @@ def eval_sort(ctx, c, outs):
         ctx.count(f'index_{c["index"]["kind"]}')
     real = run_real(c)
 
-    # --- key functions returning an (n,1) array
     if kf and kf['f'] == 'col1':
         ctx.count('col1_keyfn')
-        if c['k'] == 'frame' and c['method'] == 'sort_values':
-            pass  # Frame.sort_values squeezes (n,1) / (1,n): checked like every other case below
-        else:
-            if real[0] == 'ok':
-                # the routine treated the 2-D one-column array as depth 1 and argsorted along the last axis
-                ok_order = result_order(c, real[1], real[2])
-                if ok_order != exp[1]:
-                    fails.append(Failure('oracle', f'{where}: key function returning an (n,1) array: result not ordered by that column', c,
-                                         detail={'col1': True}))
-            else:
-                fails.append(Failure('oracle', f'{where}: key function returning an (n,1) array raises {type(real[2]).__name__}: {real[2]}', c,
-                                     detail={'col1': True, 'exc': type(real[2]).__name__}))
-            return fails
 
     # --- expected rejection
     if exp[0] == 'err':
@@ -787,7 +772,8 @@ def classify(f):
     d = f.detail or {}
     if f.kind == 'oracle' and d.get('exc') == 'ErrorInitIndex' and d.get('ih_non_tree') and 'invalid tree-form' in d.get('msg', ''):
         return 'F51-sort-ih-non-tree-arrangement'
-    if f.kind == 'oracle' and d.get('col1') and f.case.get('keyfn', {}).get('f') == 'col1' \
-            and not (f.case['k'] == 'frame' and f.case.get('method') == 'sort_values'):
-        return 'F50-sort-index-key-2d-one-column'
+    kf = f.case.get('keyfn') or {}
+    if f.kind == 'oracle' and kf.get('f') == 'col1' and f.case['k'] == 'series' and f.case.get('method') == 'sort_values' \
+            and d.get('exc'):
+        return 'F67-series-sort-values-key-2d-one-column'
     return None
